@@ -1,0 +1,16 @@
+// Copyright The OpenTelemetry Authors
+// SPDX-License-Identifier: Apache-2.0
+
+//go:build verif
+
+package trace // import "go.opentelemetry.io/otel/sdk/trace"
+
+import "math/rand"
+
+// NewRandomIDGeneratorForVerif returns the SDK's stock random IDGenerator
+// drawing from src instead of a crypto-seeded source, so that a verification
+// harness can drive it with scripted (for example all-zero) random words.
+// It exists only in builds with the "verif" tag.
+func NewRandomIDGeneratorForVerif(src rand.Source) IDGenerator {
+	return &randomIDGenerator{randSource: rand.New(src)} //nolint:gosec // Scripted source for verification only.
+}
